@@ -792,6 +792,22 @@ func (x *Exec) evalSpecCall2(sc *specCtx, e *ast.CallExpr) Value {
 		o := *sc
 		o.heap = evs[occ-1].Heap
 		return x.evalSpec(&o, e.Args[1])
+	case "after":
+		// after(call, e): e in the heap as it was right after the (only) such opaque call returned - what the callee
+		// left in its out-parameters, before the caller touched it
+		if len(e.Args) != 2 {
+			panic(engineErr("after(call, e) expected"))
+		}
+		if sc.noGhost {
+			return PoisonV{}
+		}
+		evs := x.definiteEvents(sc, e.Args[0])
+		if len(evs) != 1 || evs[0].HeapPost == nil {
+			return PoisonV{}
+		}
+		o := *sc
+		o.heap = evs[0].HeapPost
+		return x.evalSpec(&o, e.Args[1])
 	case "local":
 		// local(x): the function's local variable x, even when a result/parameter of the same name shadows it
 		need(1)
@@ -1030,6 +1046,30 @@ func (x *Exec) evalSpecCall2(sc *specCtx, e *ast.CallExpr) Value {
 		}
 		x.sym.declareFun("bytes2str", []Sort{SInt, SInt, SInt}, SStr)
 		return Scalar{mk(SStr, "bytes2str", sv.Arr, sv.Off, sv.Len), types.Typ[types.String]}
+	case "received":
+		// received(v): v is, unchanged, a result of one of the calls made so far - other than the constructors of
+		// new errors in fmt and errors (a wrapped or re-made error is not the error that was received). Calls made
+		// in earlier iterations of a loop are not looked at (the clause is then not provable, never wrongly proved).
+		need(1)
+		v := arg(0)
+		var alts []Term
+		for _, ev := range sc.st.events[sc.evFrom:] {
+			if ev.Kind != "call" || strings.HasPrefix(ev.Name, "fmt.") || strings.HasPrefix(ev.Name, "errors.") {
+				continue
+			}
+			for _, r := range ev.Results {
+				_, vi := v.(IfaceV)
+				_, ri := r.(IfaceV)
+				if vi != ri || r.GoType() == nil || v.GoType() == nil || !types.Identical(r.GoType(), v.GoType()) {
+					continue
+				}
+				alts = append(alts, x.specEqual(r, v))
+			}
+		}
+		if len(alts) == 0 {
+			return Scalar{tFalse, boolT}
+		}
+		return Scalar{or(alts...), boolT}
 	case "fresh":
 		// fresh(x): the object x was allocated during this call
 		need(1)
